@@ -11,7 +11,7 @@ RULE = ("bridge_oracle: L1 histories on the real oracle/ethbridge keepers of a f
         "duplicate claims; every history executed 8x in-process, the raw bytes of the oracle and ethbridge stores digested after each execution and compared with the first (storeBytesSame) (Go map order re-rolled). Directed: the F2 shape, de-whitelisted claimants on both "
         "sides, threshold boundaries, zero total power, the same validator claiming twice under two spellings with 40 % power. After every message the canonical state (whitelist, prophecies with both claim maps, peggy "
         "list, pause, fee receiver, blacklist, all balances, supply) is compared with the Lean model; chk lines evaluate Spec.C05.prophecyWF / "
-        "sameMembers (the stored whitelist names exactly the validators of the ledger of administrative operations that took effect: genesis list, adds, removes) / thresholdMet and acceptedClaimantOK (against that ledger) / viewIsStore (keeper view of the whitelist = raw store) / finalStable / finalKept (a prophecy once seen finalised is what the keeper still returns after block jumps, restarts and late claims) on the implementation's dumps. non-trivial = distinct accepted message, or a chk on a non-pending prophecy")
+        "sameMembers (the stored whitelist names exactly the validators of the ledger of administrative operations that took effect: genesis list, adds, removes) / thresholdMet and acceptedClaimantOK (against that ledger) / viewIsStore (keeper view of the whitelist = raw store) / reportedIsStored and finalByLedger (finality against the ledger of the statuses the claim messages REPORTED: FAILED as well as SUCCESS prophecies refuse every later claim, read back the same, move no balance) / finalStable / finalKept (a prophecy once seen finalised is what the keeper still returns after block jumps, restarts and late claims) on the implementation's dumps. non-trivial = distinct accepted message, or a chk on a non-pending prophecy")
 TRUSTED_BASE = [
     "Lean 4.33.0 kernel; axioms propext, Classical.choice, Quot.sound (audited per theorem on every run)",
     "hand-written Lean model of x/oracle and x/ethbridge (Sif/Model/Oracle.lean, EthBridge.lean, BridgeBank.lean), tied by the regenerated facts "
